@@ -185,14 +185,26 @@ def lower_read(term, atoms: Atoms, buffer_ok) -> Optional[Read]:
                 raise LayoutError('unpack with non-literal format')
             lo, hi, pad = _slice_of(data, atoms, buffer_ok)
             fo, w, signed = struct_fields(fmt[1])[idx]
+            # struct.unpack needs exactly calcsize(fmt) bytes: remember what the slice supplies
+            need = sum(f[1] for f in struct_fields(fmt[1]))
+            supplied = None if hi is None else (hi - lo) + pad
+            note = None
+            if supplied is None:
+                note = ('open', need)
+            elif supplied.is_const() and supplied.const != need:
+                note = ('size', need, supplied.const)
             if fo < pad:
                 if fo != 0 or len(struct_fields(fmt[1])) != 1:
                     raise LayoutError('padded unpack of several fields')
                 # value is w bytes of which the first `pad` are zero: the low (w-pad) bytes come from the wire
                 n = w - pad
                 bits = [8 * n - 1 - j for j in range(8 * n)] + [None] * (8 * pad)
-                return Read('int', lo, n, bits)
-            return Read('int', lo + (fo - pad), w, [8 * w - 1 - j for j in range(8 * w)])
+                r = Read('int', lo, n, bits)
+                r.exact_unpack = note
+                return r
+            r = Read('int', lo + (fo - pad), w, [8 * w - 1 - j for j in range(8 * w)])
+            r.exact_unpack = note
+            return r
         if 'cbitstruct' in name or 'bitstruct' in name:
             fmt = pos[0]
             if fmt[0] != 'const':
@@ -232,12 +244,15 @@ def lower_read(term, atoms: Atoms, buffer_ok) -> Optional[Read]:
                 if x is not None and c[0] == 'const' and isinstance(c[1], int):
                     bits = [bit if (c[1] >> j) & 1 else None for j, bit in enumerate(x.bits)]
                     r = Read(x.kind, x.pos, x.nbytes, bits)
+                    r.exact_unpack = getattr(x, 'exact_unpack', None)
                     return r
         if t[1] == 'RShift' and a is not None and t[3][0] == 'const':
             r = Read(a.kind, a.pos, a.nbytes, a.bits[t[3][1]:] + [None] * t[3][1])
+            r.exact_unpack = getattr(a, 'exact_unpack', None)
             return r
         if t[1] == 'LShift' and a is not None and t[3][0] == 'const':
             r = Read(a.kind, a.pos, a.nbytes, [None] * t[3][1] + a.bits)
+            r.exact_unpack = getattr(a, 'exact_unpack', None)
             return r
         if t[1] == 'BitOr' and a is not None and b is not None and (b.pos - a.pos).is_const():
             d = int((b.pos - a.pos).const) * 8
